@@ -28,8 +28,10 @@ CONSTANTS Catalogue,        \* sequence of abstract lines that may be added
           MaxObjs,          \* bound on the number of objects ever created
           MaxOps,           \* bound on the number of public calls
           SnapshotCascade,  \* BOOLEAN
-          RepointMerged     \* BOOLEAN: a merged group definition takes over the back-references
+          RepointMerged,    \* BOOLEAN: a merged group definition takes over the back-references
                             \* its predecessor left in its items (the repaired code) or not (pinned)
+          RollbackOnRefusal \* BOOLEAN: a line refused while its mentions are being resolved leaves
+                            \* nothing behind (the repaired code) or keeps what was done so far (pinned)
 
 VARIABLES objs,    \* oid -> object record (see NewObj)
           nobj,    \* number of objects created so far
@@ -86,8 +88,12 @@ Substitute(o, p, i) ==
      ELSE IF j = p THEN [o[p] EXCEPT !.reg = FALSE, !.br = <<>>]
      ELSE [o[j] EXCEPT !.tgt = [k \in DOMAIN o[j].tgt |-> IF o[j].tgt[k] = p THEN i ELSE o[j].tgt[k]]]]
 
+WrongKind(o, l, k) ==      \* mention k of l must be a segment and is carried by a real line of another type
+  l.rt \in {"E", "L"} /\ \E t \in ByName(o, l.refs[k].id) : ~o[t].virt /\ o[t].line.rt # "S"
+
 AddCall(l) ==
   /\ stack = <<>> /\ nops < MaxOps /\ nobj + 1 + Len(l.refs) <= MaxObjs
+  /\ ~\E k \in DOMAIN l.refs : WrongKind(objs, l, k)
   \* (the merge of multi-line group definitions is not part of this layer)
   /\ ~(IsGroup(l) /\ \E i \in DOMAIN doc.lines : doc.lines[i].name = l.name)
   /\ nops' = nops + 1
@@ -106,6 +112,43 @@ AddCall(l) ==
                 o2 == IF prev # {} THEN Substitute(r.o, CHOOSE p \in prev : TRUE, i)
                       ELSE [r.o EXCEPT ![i].reg = TRUE] IN
             /\ objs' = o2 /\ nobj' = r.n
+  /\ UNCHANGED stack
+
+-----------------------------------------------------------------------------
+(* a line that is refused in the middle of connect: its mentions are resolved one by one, and the
+   k-th turns out to name a line that cannot stand there (a segment is expected, the identifier is
+   carried by a line of another type).  The document does not change (Gfa!Step refuses); the object
+   graph must not either: the placeholders created and the back-references added for the mentions
+   before the k-th have to be taken back. *)
+RECURSIVE ResolveUpTo(_, _, _, _, _)
+ResolveUpTo(o, n, i, k, stop) ==
+  IF k >= stop THEN [o |-> o, n |-> n]
+  ELSE LET l == o[i].line
+           id == l.refs[k].id
+           found == ByName(o, id) IN
+       IF found # {} THEN
+         LET t == CHOOSE t \in found : TRUE
+             o1 == [o EXCEPT ![i].tgt[k] = t, ![t].br = Append(@, <<BackKey(l, k), i>>)] IN
+         ResolveUpTo(o1, n, i, k + 1, stop)
+       ELSE
+         LET t == n + 1
+             ph == [NewObj(PlaceholderLine(id, l.rt # "U"), TRUE) EXCEPT !.reg = TRUE,
+                                                                        !.br = <<<<BackKey(l, k), i>>>>]
+             o1 == [j \in 1..t |-> IF j = t THEN ph ELSE IF j = i THEN [o[i] EXCEPT !.tgt[k] = t] ELSE o[j]] IN
+         ResolveUpTo(o1, t, i, k + 1, stop)
+
+RefusedAddCall(l) ==
+  /\ stack = <<>> /\ nops < MaxOps /\ nobj + 1 + Len(l.refs) <= MaxObjs
+  /\ \E k \in DOMAIN l.refs :
+       /\ WrongKind(objs, l, k) /\ \A j \in 1..(k - 1) : ~WrongKind(objs, l, j)
+       /\ LET outs == Step(doc, [k |-> "add", l |-> l, id |-> "", id2 |-> ""]) IN
+          /\ \A x \in outs : x.res # "ok" /\ x.st = doc          \* the document specification refuses
+          /\ doc' = doc /\ last' = "Error" /\ nops' = nops + 1
+          /\ IF RollbackOnRefusal THEN UNCHANGED <<objs, nobj>>
+             ELSE LET i == nobj + 1
+                      o0 == [j \in 1..i |-> IF j = i THEN NewObj(l, FALSE) ELSE objs[j]]
+                      r == ResolveUpTo(o0, i, i, 1, k) IN
+                  objs' = r.o /\ nobj' = r.n
   /\ UNCHANGED stack
 
 -----------------------------------------------------------------------------
@@ -221,6 +264,7 @@ Init == /\ objs = <<>> /\ nobj = 0 /\ stack = <<>> /\ nops = 0 /\ last = "init"
 Ids == {"a", "b", "u", "v", "e1", "z"}
 Next == \/ \E k \in DOMAIN Catalogue : AddCall(Catalogue[k])
         \/ \E k \in DOMAIN Catalogue : MergeCall(Catalogue[k])
+        \/ \E k \in DOMAIN Catalogue : RefusedAddCall(Catalogue[k])
         \/ \E id \in Ids : RmCall(id)
         \/ \E old \in {"a", "e1", "u"}, new \in {"z", "b"} : RenameCall(old, new)
         \/ CascadeStep
